@@ -4,7 +4,7 @@
    hook-exported key sets of the two decoder tables). *)
 From V.lib Require Import Base.
 From V.c04 Require Import C04Model C04AsmModel C04ContainerProofs.
-From V.c03 Require Import C03Model C03Spec C03Registry C03Proofs C03CanonProofs C03LeafModel C03LeafProofs C03LeafBoxProofs C03LeafInstProofs C03StsdProofs C03VseProofs.
+From V.c03 Require Import C03Model C03Spec C03Registry C03Proofs C03CanonProofs C03LeafModel C03LeafProofs C03LeafBoxProofs C03LeafInstProofs C03StsdProofs C03VseProofs C03LeafTruncProofs.
 Open Scope N_scope.
 
 (* Encode to an io.Writer and EncodeSW to a slice writer: identical bytes or both fail, for every container tree and
@@ -103,6 +103,19 @@ Theorem C03_leaf_boxes_agree : forall nm body post,
   boxes_agree (framed nm body post) (8 + lenN body).
 Proof. exact leaf_boxes_agree. Qed.
 Print Assumptions C03_leaf_boxes_agree.
+
+(* the complement: the compact header announces MORE body bytes than are present.  DecodeBox fails; DecodeBoxSR fails for trun and
+   senc and, for mdat only (exempt from the maxSize test, DecodeMdatSR does not return the error), returns a box with empty Data
+   and leaves the accumulated error set.  Neither path reproduces such a string.  Together with C03_leaf_boxes_agree this covers
+   EVERY byte string that starts with a valid compact header of one of the three types. *)
+Theorem C03_leaf_boxes_truncated : forall nm rest size,
+  nm = name_trun \/ nm = name_senc \/ nm = name_mdat ->
+  (8 <= size < 4294967296)%N -> (lenN rest + 8 < size)%N -> (zlen (be4 size ++ nm ++ rest) < two63)%Z ->
+  leafbox_r (be4 size ++ nm ++ rest) = Err /\
+  (nm <> name_mdat -> leafbox_sr (be4 size ++ nm ++ rest) = Err) /\
+  (nm = name_mdat -> leafbox_sr (be4 size ++ nm ++ rest) = Ok (LMdat (mkMdat [] false), 8%Z, true)).
+Proof. exact leaf_boxes_truncated. Qed.
+Print Assumptions C03_leaf_boxes_truncated.
 
 (* the compact-header guard is exact: behind a 16-byte header (never written by TrunBox.Encode, so not a
    canonical string) the two trun decoders differ; witness reproduced on the Go code (T lines) *)
